@@ -5,6 +5,7 @@ from harness import k_api, k_qualitative, k_select, k_transform
 def obligations(tier):
     quick = tier == "quick"
     return [
+        k_api.obligation_qual(tier, {"C16"}, "O16.5 end to end on qualitative and ordinal features: summary partitions the known values and agrees with transform"),
         k_api.obligation(tier, {"C16"}, "O16.4 end to end: summary() lists exactly the kept features; last viable history combination induces the fitted row partition; one raw-distribution entry",
                          ["BinaryCarver", "ContinuousCarver"], ns=[4], max_pats=6 if quick else 14, companions=not quick),
         k_select.obligation(tier, {"C16"}, "O16.1 history: every tested combination with its measure, exactly one flagged viable per search = the fitted grouping, later ones 'Not checked'", "abstract"),
